@@ -81,7 +81,7 @@ M('C12', 'zero-fill-only-once-seen-twice', (MV, "for key in self._tracked_keys -
 INC = 'ixai/explainer/sage/incremental.py'
 EB = 'ixai/explainer/base.py'
 M('C01', 'drop-carry-over', (INC, "                sample_loss = feature_loss\n", ""))
-M('C01', 'marginal-tracker-fed-model-loss', (INC, "self._marginal_loss_tracker.update(sample_loss)", "self._marginal_loss_tracker.update(model_loss)"))
+M('C01', 'marginal-tracker-fed-model-loss', (INC, "self._marginal_loss_tracker.update(marginal_loss)", "self._marginal_loss_tracker.update(model_loss)"))
 M('C01', 'offset-one-sided', (INC, "return self._model_loss_tracker.get() + self._loss_direction", "return self._model_loss_tracker.get()"))
 M('C01', 'importance-tracker-other-alpha', (EB, "self._importance_trackers: MultiValueTracker = MultiValueTracker(copy.deepcopy(base_tracker))",
    "self._importance_trackers: MultiValueTracker = MultiValueTracker(ExponentialSmoothingTracker(alpha=self._smoothing_alpha / 2) if dynamic_setting else copy.deepcopy(base_tracker))"))
@@ -92,7 +92,7 @@ M('C03', 'credit-rotated', (INC, "            self._importance_trackers.update(m
    "            _v = list(marginal_contributions.values())\n            marginal_contributions = dict(zip(marginal_contributions.keys(), _v[1:] + _v[:1]))\n            self._importance_trackers.update(marginal_contributions)"))
 M('C03', 'impute-coalition-not-complement', (INC, "feature_subset=features_not_in_s,", "feature_subset=set(self.feature_names) - features_not_in_s,"))
 M('C03', 'mean-of-losses', (INC, "                feature_loss = self._loss_function(y_i, y)", "                feature_loss = sum(self._loss_function(y_i, p) for p in predictions) / len(predictions)"))
-M('C03', 'unnormalised-marginal-prediction', (INC, "self.marginal_prediction = self._marginal_prediction_tracker.get_normalized()", "self.marginal_prediction = self._marginal_prediction_tracker.get()"))
+M('C03', 'unnormalised-marginal-prediction', (INC, "marginal_prediction = marginal_prediction_tracker.get_normalized()", "marginal_prediction = marginal_prediction_tracker.get()"))
 M('C03', 'stale-variance', (INC, """            self._importance_trackers.update(marginal_contributions)
             variances = {
                 feature: (marginal_contributions[feature] - self.importance_values[feature])**2
@@ -153,8 +153,8 @@ M('C15', 'pfi-storage-before-explanation', (PFI, "        if self.seen_samples >
 M('C15', 'sage-extra-model-evaluation', (INC, "            model_loss = self._loss_function(y_i, y_i_pred)", "            model_loss = self._loss_function(y_i, self._model_function(x_i))"))
 M('C15', 'imputer-updates-x-in-place', (MARG, "            prediction = self.model_function({**x_i, **sampled_values})",
    "            _old = dict(x_i)\n            x_i.update(sampled_values)\n            prediction = self.model_function(x_i)\n            if len(sampled_values) < 2:\n                x_i.update(_old)"))
-M('C15', 'sage-update-flag-ignored-on-first', (INC, "        if update_storage:\n            self._storage.update(x_i, y_i)\n        return self.importance_values",
-   "        if update_storage or self.seen_samples == 3:\n            self._storage.update(x_i, y_i)\n        return self.importance_values"))
+M('C15', 'sage-update-flag-ignored-on-first', (INC, "        if update_storage:\n            self._storage.update(x_i, y_i)\n",
+   "        if update_storage or self.seen_samples == 3:\n            self._storage.update(x_i, y_i)\n"))
 M('C15', 'names-sorted-in-ctor', (EB, "        self.feature_names = feature_names\n        self.number_of_features", "        self.feature_names = feature_names\n        if len({type(n) for n in feature_names}) == 1:\n            feature_names.sort()\n        self.number_of_features"))
 M('C15', 'return-copy', (PFI, "        return self.importance_values\n", "        return dict(self.importance_values)\n"), kind='equivalent')
 
@@ -235,3 +235,18 @@ M('C05', 'skip-returns-zeros', (ITV, "            return self.importance_values\
 M('C05', 'original-credit-shifted', (BATCH, "                x_s[feature] = x_i[feature]\n                predictions = []", "                x_s[feature] = x_i[feature]\n                feature = permutation_chain[0] if n % 3 == 0 else feature\n                predictions = []"))
 M('C05', 'force-changes-rhythm', (ITV, "        self.seen_samples += 1\n        if not force_explain", "        self.seen_samples += 1\n        if force_explain:\n            self.seen_samples = 0\n        if not force_explain"))
 M('C05', 'storage-returns-lists', ('ixai/storage/interval_storage.py', "        return self._storage_x, self._storage_y\n        #return list", "        return list(self._storage_x), list(self._storage_y)\n        #return list"), kind='equivalent')
+
+# ---- C17 ---------------------------------------------------------------------------------------
+M('C17', 'sage-early-model-loss-commit', (INC, "            model_loss = self._loss_function(y_i, y_i_pred)\n", "            model_loss = self._loss_function(y_i, y_i_pred)\n            self._model_loss_tracker.update(model_loss)\n"),
+  (INC, "        if marginal_contributions is not None:\n            self._model_loss_tracker.update(model_loss)\n", "        if marginal_contributions is not None:\n"))
+M('C17', 'sage-marginal-prediction-in-place', (INC, "            marginal_prediction_tracker = copy.deepcopy(self._marginal_prediction_tracker)", "            marginal_prediction_tracker = self._marginal_prediction_tracker"))
+M('C17', 'sage-storage-after-commit', (INC, "        if update_storage:\n            self._storage.update(x_i, y_i)\n", ""),
+  (INC, "        self.seen_samples += 1\n        return self.importance_values", "        self.seen_samples += 1\n        if update_storage:\n            self._storage.update(x_i, y_i)\n        return self.importance_values"))
+M('C17', 'pfi-storage-after-commit', (PFI, "        if update_storage:\n            self._storage.update(x_i, y_i)\n", ""),
+  (PFI, "        self.seen_samples += 1\n        return self.importance_values", "        self.seen_samples += 1\n        if update_storage:\n            self._storage.update(x_i, y_i)\n        return self.importance_values"))
+M('C17', 'sage-marginal-attr-early', (INC, "            marginal_loss = self._loss_function(y_i, marginal_prediction)", "            self.marginal_prediction = marginal_prediction\n            marginal_loss = self._loss_function(y_i, marginal_prediction)"))
+M('C17', 'batch-incremental-assignment', (BATCH, "                sage_values[feature] += marginal_contribution\n                loss_previous = feature_loss\n            n_data = n\n        self.importance_values = {feature: sage_value / n_data\n                                  for feature, sage_value in sage_values.items()}\n        return self.importance_values\n\n    def explain_many_original(",
+   "                sage_values[feature] += marginal_contribution\n                loss_previous = feature_loss\n            n_data = n\n            self.importance_values = {feature: sage_value / n_data\n                                      for feature, sage_value in sage_values.items()}\n        return self.importance_values\n\n    def explain_many_original("))
+M('C17', 'pfi-swallows-storage-error', (PFI, "        if update_storage:\n            self._storage.update(x_i, y_i)\n", "        if update_storage:\n            try:\n                self._storage.update(x_i, y_i)\n            except Exception:\n                pass\n"))
+M('C17', 'sage-importance-commit-per-feature', (INC, "                marginal_contributions[feature] = marginal_contribution\n", "                marginal_contributions[feature] = marginal_contribution\n                if len(marginal_contributions) == len(self.feature_names):\n                    self._importance_trackers.update(marginal_contributions)\n"),
+  (INC, "            self._importance_trackers.update(marginal_contributions)\n            variances", "            variances"))
